@@ -6,7 +6,7 @@ From Coq Require Import String List.
 From SJ Require Import lib.Base model.Json model.Ast model.ExecLib model.Leaf model.Exec
      spec.Sem spec.Proj proofs.ProjProofs proofs.RefineDefs proofs.Refine proofs.RefineClosed proofs.DescendProofs proofs.SubscriptProofs proofs.StructProofs
      gen.RaiseSites model.RaiseExpect.
-From SJ Require proofs.Invariants.
+From SJ Require proofs.Invariants proofs.KleeneProofs proofs.RefineWitness.
 Import ListNotations.
 
 (* ---------- C07: transfer of C07_lax to the executor model ----------
@@ -327,6 +327,149 @@ Proof.
   unfold ExistsOrMatch. destruct (p_pred p); [apply match_cancelled_from_start | apply exists_cancelled_from_start].
 Qed.
 
+(* ---------- C11: a top-level predicate check on the model ----------
+   For a path whose root is one boolean step s (a connective, a comparison,
+   exists, like_regex ...), Query of M returns the one item true / false / null
+   that is the value of sem_pred, or the non-suppressible error; Match the
+   corresponding outcome. *)
+Section PredCheck.
+Variables (L : ExecLib) (p : path) (doc : json) (o : opts) (s : step).
+Hypothesis Hroot : p_root p = [s].
+Hypothesis Hs : KleeneProofs.is_pred_step s = true.
+Hypothesis Hnc : o_cancel_at o = None.
+Hypothesis Hmc : members_canon L.
+Hypothesis Hkv : no_kv [s] = true.
+Hypothesis Hex : exists_ok [s] = true.
+Hypothesis Hno : ne_ops [s] = true.
+
+Let C := mkcenv (p_lax p) doc (o_vars o) (o_useTZ o).
+Let r := sem_pred L C quirks_code s doc (-1) (p_lax p) doc.
+
+Lemma sem_of_pred_check :
+  sem_of L quirks_code p doc o =
+  match r with (_, Some e) => tfail e | (pv, None) => tone (bool_item pv) end.
+Proof.
+  unfold sem_of. rewrite Hroot. fold C.
+  change (sem_path L C quirks_code [s]) with
+    (sem_step L C quirks_code s (fun l' ig' x => sem_chain L C quirks_code [] doc l' ig' (laxm C) x)
+       doc (-1) (p_lax p) (p_lax p) doc).
+  rewrite (KleeneProofs.C11_pred_as_item L C quirks_code s _ doc (-1) (p_lax p) (p_lax p) doc Hs).
+  fold r. destruct r as [pv [e|]]; reflexivity.
+Qed.
+
+Lemma Hne_pred : p_root p <> [].
+Proof. rewrite Hroot. discriminate. Qed.
+
+Theorem C11_query_model fuel q :
+  Query L fuel p doc o = Ret q ->
+  match sem_pred L (mkcenv (p_lax p) doc (o_vars o) (o_useTZ o)) quirks_code s doc (-1) (p_lax p) doc with
+  | (pv, None) => q = QItems [bool_item pv]
+  | (_, Some e) => is_verbose e = false /\ exists e', q = QErr (AErr e') /\ eclass e' = eclass e
+  end.
+Proof.
+  intros H. pose proof Hkv as Hkv'. pose proof Hex as Hex'. pose proof Hno as Hno'.
+  rewrite <- Hroot in Hkv', Hex', Hno'.
+  pose proof (query_is_trace L p doc o Hnc Hmc Hne_pred Hkv' Hex' Hno' fuel q H) as S.
+  rewrite sem_of_pred_check in S. pose proof (sem_pred_hard L C quirks_code s doc (-1) (p_lax p) doc) as Hh.
+  fold r in Hh. fold C. fold r. destruct r as [pv [e|]].
+  - assert (He : is_verbose e = false) by (apply Hh; reflexivity). split; [exact He|].
+    unfold p_query, Proj.vis, tfail in S. cbn [fst snd] in S. rewrite He in S. cbn [andb] in S.
+    destruct q as [|[e'|]]; cbn [qres_sim apierr_sim] in S; try contradiction. eauto.
+  - unfold p_query, tone in S. cbn [fst snd] in S. destruct q; cbn [qres_sim] in S; [now subst | contradiction].
+Qed.
+
+Theorem C11_match_model fuel b :
+  Match L fuel p doc o = Ret b ->
+  match sem_pred L (mkcenv (p_lax p) doc (o_vars o) (o_useTZ o)) quirks_code s doc (-1) (p_lax p) doc with
+  | (PTrue, None) => b = BVal true
+  | (PFalse, None) => b = BVal false
+  | (PUnknown, None) => b = BErr ANull
+  | (_, Some e) => is_verbose e = false /\ exists e', b = BErr (AErr e') /\ eclass e' = eclass e
+  end.
+Proof.
+  intros H. pose proof Hkv as Hkv'. pose proof Hex as Hex'. pose proof Hno as Hno'.
+  rewrite <- Hroot in Hkv', Hex', Hno'.
+  pose proof (match_is_trace L p doc o Hnc Hmc Hne_pred Hkv' Hex' Hno' fuel b H) as S.
+  rewrite sem_of_pred_check in S. pose proof (sem_pred_hard L C quirks_code s doc (-1) (p_lax p) doc) as Hh.
+  pose proof (KleeneProofs.sem_pred_wf L C quirks_code s doc (-1) (p_lax p) doc) as Hw.
+  fold r in Hh, Hw. fold C. fold r. destruct r as [pv [e|]].
+  - assert (He : is_verbose e = false) by (apply Hh; reflexivity).
+    specialize (Hw e eq_refl). cbn [fst] in Hw. subst pv. split; [exact He|].
+    unfold p_match, p_query, Proj.vis, tfail in S. cbn [fst snd] in S. rewrite He in S. cbn [andb] in S.
+    destruct b as [|[e'|]]; cbn [bres_sim apierr_sim] in S; try contradiction. eauto.
+  - unfold p_match, p_query, tone in S. cbn [fst snd] in S.
+    destruct pv; cbn [bool_item] in S; destruct b as [|[|]]; cbn [bres_sim apierr_sim] in S;
+      try contradiction; try reflexivity; now subst.
+Qed.
+End PredCheck.
+
+(* non-vacuity, and known finding KF-C11-isunknown-hard-error on the model:
+   (true == 1) is unknown  -> [true], Match true;
+   (exists($x)) is unknown with $x unbound -> [true] (the hard error is swallowed);
+   exists($x) alone -> the hard error from Query and Match, silent or not *)
+Definition c11_p1 : path := mkpath true true [SUn UIsUnknown [SBin BEq [SConst CTrue] [SInteger 1]]].
+Definition c11_p2 : path := mkpath true true [SUn UIsUnknown [KleeneProofs.c11_hard]].
+Definition c11_p3 : path := mkpath true true [KleeneProofs.c11_hard].
+Example C11_model_witness :
+  members_canon RefineWitness.L0 /\
+  KleeneProofs.is_pred_step (SUn UIsUnknown [SBin BEq [SConst CTrue] [SInteger 1]]) = true /\
+  no_kv (p_root c11_p1) = true /\ exists_ok (p_root c11_p1) = true /\ ne_ops (p_root c11_p1) = true /\
+  Query RefineWitness.L0 20 c11_p1 JNull (RefineWitness.o0 false) = Ret (QItems [JBool true]) /\
+  Match RefineWitness.L0 20 c11_p1 JNull (RefineWitness.o0 false) = Ret (BVal true) /\
+  Query RefineWitness.L0 20 c11_p2 JNull (RefineWitness.o0 false) = Ret (QItems [JBool true]) /\
+  Match RefineWitness.L0 20 c11_p2 JNull (RefineWitness.o0 false) = Ret (BVal true) /\
+  Query RefineWitness.L0 20 c11_p3 JNull (RefineWitness.o0 true)
+    = Ret (QErr (AErr (EExec "could not find jsonpath variable"))) /\
+  Match RefineWitness.L0 20 c11_p3 JNull (RefineWitness.o0 true)
+    = Ret (BErr (AErr (EExec "could not find jsonpath variable"))).
+Proof.
+  split; [intros l; reflexivity|]. vm_compute. repeat split; reflexivity.
+Qed.
+
+(* the tables of proofs/KleeneProofs.v written out row by row, for citation in props/C11.v *)
+Lemma kout_of_rows :
+  KleeneProofs.kout_of (PTrue, None) = KleeneProofs.KT /\
+  KleeneProofs.kout_of (PFalse, None) = KleeneProofs.KF /\
+  KleeneProofs.kout_of (PUnknown, None) = KleeneProofs.KU /\
+  (forall pv e, KleeneProofs.kout_of (pv, Some e) = KleeneProofs.KE e).
+Proof. repeat split. intros [] e; reflexivity. Qed.
+Lemma pres_of_rows :
+  KleeneProofs.pres_of KleeneProofs.KT = (PTrue, None) /\
+  KleeneProofs.pres_of KleeneProofs.KF = (PFalse, None) /\
+  KleeneProofs.pres_of KleeneProofs.KU = (PUnknown, None) /\
+  (forall e, KleeneProofs.pres_of (KleeneProofs.KE e) = (PUnknown, Some e)).
+Proof. repeat split. Qed.
+Import KleeneProofs.
+Lemma k_and_nine_rows :
+  k_and KT KT = KT /\ k_and KT KF = KF /\ k_and KT KU = KU /\
+  k_and KF KT = KF /\ k_and KF KF = KF /\ k_and KF KU = KF /\
+  k_and KU KT = KU /\ k_and KU KF = KF /\ k_and KU KU = KU.
+Proof. repeat split. Qed.
+Lemma k_or_nine_rows :
+  k_or KT KT = KT /\ k_or KT KF = KT /\ k_or KT KU = KT /\
+  k_or KF KT = KT /\ k_or KF KF = KF /\ k_or KF KU = KU /\
+  k_or KU KT = KT /\ k_or KU KF = KU /\ k_or KU KU = KU.
+Proof. repeat split. Qed.
+Lemma k_not_rows : k_not KT = KF /\ k_not KF = KT /\ k_not KU = KU /\ (forall e, k_not (KE e) = KE e).
+Proof. repeat split. Qed.
+Lemma k_isunknown_error_rows e : k_isunknown false (KE e) = KE e /\ k_isunknown true (KE e) = KT.
+Proof. split; reflexivity. Qed.
+Lemma k_exists_eq lax t :
+  k_exists lax t =
+  if lax then
+    match fst t, snd t with
+    | _ :: _, _ => KT
+    | [], Some e => if is_verbose e then KU else KE e
+    | [], None => KF
+    end
+  else
+    match snd t, fst t with
+    | Some e, _ => if is_verbose e then KU else KE e
+    | None, [] => KF
+    | None, _ :: _ => KT
+    end.
+Proof. reflexivity. Qed.
+
 (* ---------- gen/RaiseSites.v: the inventory regenerated from /repo ----------
    equals the inventory the model was validated against; in particular the
    class of the cancellation raise site is ErrExecution (not ErrVerbose). *)
@@ -363,5 +506,8 @@ Print Assumptions C08_exists_hard.
 Print Assumptions C08_model_witness.
 Print Assumptions query_cancelled_from_start.
 Print Assumptions eom_cancelled_from_start.
+Print Assumptions C11_query_model.
+Print Assumptions C11_match_model.
+Print Assumptions C11_model_witness.
 Print Assumptions raise_sites_as_expected.
 Print Assumptions cancellation_site_In.
